@@ -136,7 +136,7 @@ def pMst : P Mst := do
   pure { name := key, id := id, markDeleted := md, engine := eng, shardKeys := ks, schema := fs }
 
 def pVer : P MstVer := do
-  let n ← tok; let v ← nat
+  let n ← name; let v ← nat
   pure { name := n, version := v }
 
 def pShard : P Shard := do
